@@ -1,7 +1,7 @@
 (* C20 - VAT returns a Prim-ordered permutation of the dissimilarity matrix.
    Statements only; generic in the totally pre-ordered distance type. *)
 From Coq Require Import List Bool Arith Permutation.
-From ART Require Import Search VAT VAT_proofs.
+From ART Require Import Search VAT VAT_proofs VAT_prim.
 Import ListNotations.
 
 Theorem C20_permutation_and_start :
@@ -32,6 +32,28 @@ Theorem C20_matrix_is_reordered_input :
   forall (A : Type) (d0 : A) D perm a b, a < length perm -> b < length perm ->
     dist A d0 (reorder A d0 D perm) a b = dist A d0 D (nth a perm 0) (nth b perm 0).
 Proof. exact reorder_entry. Qed.
+(* the whole order, not just one iteration: every sample after the first is an unvisited sample closest to the
+   samples before it *)
+Theorem C20_whole_order_is_prim_ordered :
+  forall (A : Type) (leb : A -> A -> bool),
+    (forall a b, leb a b = true \/ leb b a = true) ->
+    (forall a b c, leb a b = true -> leb b c = true -> leb a c = true) ->
+    forall d0 D out, Forall (fun r => length r = length D) D ->
+    vat_order A leb d0 D = Some out ->
+    forall pre x post, out = pre ++ x :: post -> pre <> [] ->
+      exists from, In from pre /\
+        forall i j, In i pre -> In j (x :: post) -> leb (dist A d0 D from x) (dist A d0 D i j) = true.
+Proof. exact vat_is_prim_ordered. Qed.
+Theorem C20_symmetric_for_symmetric_input :
+  forall (A : Type) (d0 : A) D perm a b, a < length perm -> b < length perm ->
+    (forall i j, dist A d0 D i j = dist A d0 D j i) ->
+    dist A d0 (reorder A d0 D perm) a b = dist A d0 (reorder A d0 D perm) b a.
+Proof. exact reorder_symmetric. Qed.
+Theorem C20_zero_diagonal_for_zero_diagonal_input :
+  forall (A : Type) (d0 : A) D perm a (z : A), a < length perm ->
+    (forall i, dist A d0 D i i = z) -> dist A d0 (reorder A d0 D perm) a a = z.
+Proof. exact reorder_diagonal. Qed.
+Print Assumptions C20_whole_order_is_prim_ordered.
 Print Assumptions C20_permutation_and_start.
 Print Assumptions C20_next_is_closest_unvisited.
 
